@@ -4,12 +4,17 @@
    LIST instance (the one extracted and run) over an arbitrary realFieldType, represent
    what the same definitions compute at the MathComp instance (the one the theorems are
    about), on well-formed inputs.  Built on ListOpsCorrect.v and C02_Transport.v.
-   Not covered: the per-row builders (add_mean, out_mean, offsets: mbuild over mget),
-   chunk arithmetic, and everything that goes through the square-root / inverse oracles. *)
+   Second part (Section UT): the unscented transform proper, for ARBITRARY list-level oracles
+   sqL / egL and ALL layouts (linear, circular, quaternion, noise rows): weights, sigma-point
+   generation, output mean, offsets, the per-component transform and the five entry points
+   ut_generic / ut_state / ut_additive_state / ut_meas / ut_additive_meas, under per-call
+   correspondence premises for the oracles (the square root on the covariances actually
+   passed; the eigenvector oracle only when the output layout has quaternions) and for the
+   transformed function (corresponding columns to corresponding columns). *)
 Require Import ZArith List Bool.
 Require Import BFL.Ops BFL.ListOps BFL.C03_Model.
 From mathcomp Require Import all_ssreflect all_algebra.
-Require Import BFL.MxOps BFL.ListOpsCorrect BFL.C02_Transport.
+Require Import BFL.MxOps BFL.ListOpsCorrect BFL.C02_Transport BFL.UT_Transport.
 Set Implicit Arguments.
 Unset Strict Implicit.
 Unset Printing Implicit Defensive.
@@ -78,3 +83,331 @@ by apply: List.Forall2_cons => //; apply: (repr_add tr) => //; apply: (repr_mul 
 Qed.
 
 End T.
+
+(* ====================================================================== *)
+(* the unscented transform proper                                          *)
+Section UT.
+Variable F : realFieldType.
+Variable tr : Transc F.
+Variable sq : forall n, 'M[F]_n -> 'M[F]_n.
+Variable eg : forall n, 'M[F]_n -> 'M[F]_(n,1).
+Variables sqL egL : nat -> lmxF F -> lmxF F.
+Let S := FOps tr.
+Let OL := ListMat S sqL egL.
+Let OM := MxMat tr sq eg.
+Notation repr m n l A := (@C02_Transport.repr F m n l A) (only parsing).
+Notation rcols r := (@repr_list F r 1) (only parsing).
+Local Notation Rget := (@rget F tr sq eg sqL egL).
+Local Notation Rbuild := (@rbuild F tr sq eg sqL egL).
+Local Notation Radd := (@r_add F tr sq eg sqL egL).
+Local Notation Rscale := (@r_scale F tr sq eg sqL egL).
+Local Notation Rmul := (@r_mul F tr sq eg sqL egL).
+Local Notation Rtr := (@r_tr F tr sq eg sqL egL).
+Local Notation Rzero := (@r_zero F tr sq eg sqL egL).
+Local Notation Rcol := (@r_col F tr sq eg sqL egL).
+
+(* ---- weights: scalars only ---- *)
+Definition repr_utw (wl : utw OL) (wm : utw OM) : Prop :=
+  [/\ w_mean wl = w_mean wm, w_cov wl = w_cov wm & w_c wl = w_c wm].
+
+Lemma ut_weights_transport n a b k : repr_utw (@ut_weights OL n a b k) (@ut_weights OM n a b k).
+Proof. by []. Qed.
+
+Lemma ut_weights_of_transport L a b k : repr_utw (@ut_weights_of OL L a b k) (@ut_weights_of OM L a b k).
+Proof. by []. Qed.
+
+(* ---- entries of columns ---- *)
+Lemma colgetE r l (x : 'cV[F]_r) : repr r 1 l x -> forall i, @colget OL r l i = @colget OM r x i.
+Proof. by move=> rx i; exact: (Rget rx). Qed.
+
+Lemma quat_atE r l (x : 'cV[F]_r) : repr r 1 l x -> forall o, @quat_at OL r l o = @quat_at OM r x o.
+Proof. by move=> rx o; rewrite /quat_at !(colgetE rx). Qed.
+
+Lemma rv_atE r l (x : 'cV[F]_r) : repr r 1 l x -> forall o, @rv_at OL r l o = @rv_at OM r x o.
+Proof. by move=> rx o; rewrite /rv_at !(colgetE rx). Qed.
+
+(* ---- weighted sums, any oracle pair ---- *)
+Lemma wsum_repr r (ws : list F) ls (As : list 'cV[F]_r) : rcols r ls As ->
+  repr r 1 (@wsum OL r ws ls) (@wsum OM r ws As : 'cV[F]_r).
+Proof.
+rewrite /wsum => H.
+have gen : forall accl (accm : 'cV[F]_r), repr r 1 accl accm ->
+  repr r 1 (fold_left (fun acc p => @madd OL r 1 acc (@mscale OL r 1 p.1 p.2)) (combine ws ls) accl)
+           (fold_left (fun acc p => @madd OM r 1 acc (@mscale OM r 1 p.1 p.2)) (combine ws As) accm : 'cV[F]_r).
+  elim: H ws => [|l A ls' As' HlA _ IH] [|w ws] accl accm Hacc //=.
+  by apply: IH; apply: Radd => //; apply: Rscale.
+by apply: gen; exact: Rzero.
+Qed.
+
+Lemma wouter_repr a b (ws : list F) lu (Us : list 'cV[F]_a) lv (Vs : list 'cV[F]_b) :
+  rcols a lu Us -> rcols b lv Vs ->
+  repr a b (@wouter OL a b ws lu lv) (@wouter OM a b ws Us Vs : 'M[F]_(a,b)).
+Proof.
+rewrite /wouter => Hu Hv.
+have gen : forall accl (accm : 'M[F]_(a,b)), repr a b accl accm ->
+  repr a b (fold_left (fun acc p => @madd OL a b acc (@mscale OL a b p.1 (@mmul OL a 1 b p.2.1 (@mtr OL b 1 p.2.2))))
+                      (combine ws (combine lu lv)) accl)
+           (fold_left (fun acc p => @madd OM a b acc (@mscale OM a b p.1 (@mmul OM a 1 b p.2.1 (@mtr OM b 1 p.2.2))))
+                      (combine ws (combine Us Vs)) accm : 'M[F]_(a,b)).
+  elim: Hu lv Vs Hv ws => [|l A ls' As' HlA _ IH] lv' Vs' Hv' ws' accl accm Hacc.
+    by case: ws'.
+  case: Hv' => [|l2 A2 lv2 Vs2 H2 Hv2]; first by case: ws'.
+  case: ws' => [|w ws'] //=.
+  by apply: IH => //; apply: Radd => //; apply: Rscale; apply: Rmul => //; exact: Rtr.
+by apply: gen; exact: Rzero.
+Qed.
+
+(* ---- sigma points ---- *)
+Lemma add_mean_rowE L d dc central lm (m : 'cV[F]_d) lp (p : 'cV[F]_dc) i :
+  repr d 1 lm m -> repr dc 1 lp p ->
+  @add_mean_row OL L d dc central lm lp i = @add_mean_row OM L d dc central m p i.
+Proof.
+by move=> rm rp; rewrite /add_mean_row !(quat_atE rm) !(rv_atE rp) !(colgetE rm) !(colgetE rp).
+Qed.
+
+Lemma add_mean_repr L d dc central lm (m : 'cV[F]_d) lp (p : 'cV[F]_dc) :
+  repr d 1 lm m -> repr dc 1 lp p ->
+  repr d 1 (@add_mean OL L d dc central lm lp) (@add_mean OM L d dc central m p).
+Proof. by move=> rm rp; apply: Rbuild => i j _ _; exact: add_mean_rowE. Qed.
+
+(* the square-root oracles correspond on this covariance *)
+Definition sq_corr dc (lP : lmxF F) (P : 'M[F]_dc) : Prop := repr dc dc (sqL dc lP) (sq P).
+
+Lemma perturbations_repr dc c lP (P : 'M[F]_dc) : sq_corr lP P ->
+  rcols dc (@perturbations OL dc c lP) (@perturbations OM dc c P).
+Proof.
+move=> rsq; rewrite /perturbations.
+by apply: List.Forall2_app; apply: F2_map_seq => k; apply: Rcol; apply: Rscale.
+Qed.
+
+Lemma sigma_comp_repr L d dc c lm (m : 'cV[F]_d) lP (P : 'M[F]_dc) :
+  repr d 1 lm m -> sq_corr lP P ->
+  rcols d (@sigma_comp OL L d dc c lm lP) (@sigma_comp OM L d dc c m P).
+Proof.
+move=> rm rsq; rewrite /sigma_comp; apply: List.Forall2_cons.
+  by apply: add_mean_repr => //; exact: Rzero.
+apply: F2_map; apply: F2_impl (perturbations_repr c rsq) => lp p rp.
+exact: add_mean_repr.
+Qed.
+
+(* a component: mean, covariance; the square-root oracles correspond on the covariance *)
+Definition repr_comp d dc (cl : lmxF F * lmxF F) (cm : 'cV[F]_d * 'M[F]_dc) : Prop :=
+  repr d 1 cl.1 cm.1 /\ repr dc dc cl.2 cm.2.
+Definition repr_comp_sq d dc (cl : lmxF F * lmxF F) (cm : 'cV[F]_d * 'M[F]_dc) : Prop :=
+  repr_comp cl cm /\ sq_corr cl.2 cm.2.
+
+Lemma sigma_points_repr L d dc c (csl : list (lmxF F * lmxF F)) (csm : list ('cV[F]_d * 'M[F]_dc)) :
+  List.Forall2 (@repr_comp_sq d dc) csl csm ->
+  rcols d (@sigma_points OL L d dc c csl) (@sigma_points OM L d dc c csm).
+Proof.
+move=> H; rewrite /sigma_points; apply: F2_concat; apply: F2_map.
+by apply: F2_impl H => cl cm [[rm _] rsq]; exact: sigma_comp_repr.
+Qed.
+
+(* ---- output mean ---- *)
+(* the eigenvector oracles correspond; needed only where the output layout has quaternions *)
+Definition eg_corr (L : layout) : Prop :=
+  l_quat L = true -> forall l (A : 'M[F]_4), repr 4 4 l A -> repr 4 1 (egL 4 l) (eg A).
+
+Lemma q_col_repr (q : F * F * F * F) : repr 4 1 (@q_col OL q) (@q_col OM q).
+Proof. exact: Rbuild. Qed.
+
+Lemma quat_outer_repr (ws : list F) (qs : list (F * F * F * F)) :
+  repr 4 4 (@quat_outer OL ws qs) (@quat_outer OM ws qs).
+Proof.
+rewrite /quat_outer.
+have gen : forall l accl (accm : 'M[F]_4), repr 4 4 accl accm ->
+  repr 4 4 (fold_left (fun acc p => @madd OL 4 4 acc (@mscale OL 4 4 p.1 (@mmul OL 4 1 4 (@q_col OL p.2) (@mtr OL 4 1 (@q_col OL p.2))))) l accl)
+           (fold_left (fun acc p => @madd OM 4 4 acc (@mscale OM 4 4 p.1 (@mmul OM 4 1 4 (@q_col OM p.2) (@mtr OM 4 1 (@q_col OM p.2))))) l accm : 'M[F]_4).
+  elim=> [|[w q] l IH] accl accm Hacc //.
+  apply: IH; apply: Radd => //; apply: Rscale; apply: Rmul; first exact: q_col_repr.
+  by apply: Rtr; exact: q_col_repr.
+by apply: gen; exact: Rzero.
+Qed.
+
+Lemma mean_quaternion_repr L (ws : list F) (qs : list (F * F * F * F)) : eg_corr L -> l_quat L = true ->
+  repr 4 1 (@mean_quaternion OL ws qs) (@mean_quaternion OM ws qs).
+Proof. by move=> Heg Hq; apply: Heg => //; exact: quat_outer_repr. Qed.
+
+Lemma out_mean_repr L p (wm : list F) lYs (Ys : list 'cV[F]_p) : eg_corr L -> rcols p lYs Ys ->
+  repr p 1 (@out_mean OL L p wm lYs) (@out_mean OM L p wm Ys).
+Proof.
+move=> Heg rY; rewrite /out_mean; apply: Rbuild => i j _ _.
+case: (i <? l_lin L); first exact: (colgetE (wsum_repr wm rY)).
+case: (i <? _) => //; case Eq: (l_quat L).
+- have -> : List.map (fun y => @quat_at OL p y (l_lin L + (i - l_lin L) / 4 * 4)) lYs
+          = List.map (fun y => @quat_at OM p y (l_lin L + (i - l_lin L) / 4 * 4)) Ys.
+    by apply: F2_map_eq; apply: F2_impl rY => l y ry; exact: quat_atE.
+  exact: (colgetE (mean_quaternion_repr _ _ Heg Eq)).
+- have -> : List.map (fun y => @colget OL p y i) lYs = List.map (fun y => @colget OM p y i) Ys.
+    by apply: F2_map_eq; apply: F2_impl rY => l y ry; exact: colgetE.
+  by [].
+Qed.
+
+(* ---- offsets ---- *)
+Lemma offset_rowE L p ly (y : 'cV[F]_p) lr (ref : 'cV[F]_p) i : repr p 1 ly y -> repr p 1 lr ref ->
+  @offset_row OL L p ly lr i = @offset_row OM L p y ref i.
+Proof.
+by move=> ry rr; rewrite /offset_row !(quat_atE ry) !(quat_atE rr) !(colgetE ry) !(colgetE rr).
+Qed.
+
+Lemma offsets_repr L p pc ly (y : 'cV[F]_p) lr (ref : 'cV[F]_p) : repr p 1 ly y -> repr p 1 lr ref ->
+  repr pc 1 (@offsets OL L p pc ly lr) (@offsets OM L p pc y ref).
+Proof. by move=> ry rr; apply: Rbuild => i j _ _; exact: offset_rowE. Qed.
+
+(* ---- one component of the transform ---- *)
+Definition repr_utcomp p pc dx (ul : ut_comp OL p pc dx) (um : ut_comp OM p pc dx) : Prop :=
+  [/\ repr p 1 (uc_mean ul) (uc_mean um : 'cV[F]_p),
+      repr pc pc (uc_cov ul) (uc_cov um : 'M[F]_pc) &
+      repr dx pc (uc_cross ul) (uc_cross um : 'M[F]_(dx,pc))].
+
+Definition repr_utres p pc dx (rl : ut_result OL p pc dx) (rm : ut_result OM p pc dx) : Prop :=
+  List.Forall2 (@repr_utcomp p pc dx) (ur_comps rl) (ur_comps rm) /\ ur_weights rl = ur_weights rm.
+
+Lemma ut_component_repr Lin Lout d p pc dx (wl : utw OL) (wm : utw OM)
+      lm (m : 'cV[F]_d) lXs (Xs : list 'cV[F]_d) lYs (Ys : list 'cV[F]_p) :
+  eg_corr Lout -> repr_utw wl wm -> repr d 1 lm m -> rcols d lXs Xs -> rcols p lYs Ys ->
+  repr_utcomp (@ut_component OL Lin Lout d p pc dx wl lm lXs lYs)
+              (@ut_component OM Lin Lout d p pc dx wm m Xs Ys).
+Proof.
+move=> Heg [Ewm Ewc _] rm rX rY; rewrite /ut_component /= Ewm Ewc.
+have rybar := out_mean_repr (w_mean wm) Heg rY.
+have roffs : rcols pc (List.map (fun y => @offsets OL Lout p pc y (@out_mean OL Lout p (w_mean wm) lYs)) lYs)
+                      (List.map (fun y => @offsets OM Lout p pc y (@out_mean OM Lout p (w_mean wm) Ys)) Ys).
+  by apply: F2_map; apply: F2_impl rY => l y ry; exact: offsets_repr.
+have rioffs : rcols dx (List.map (fun x => @offsets OL Lin d dx x lm) lXs)
+                       (List.map (fun x => @offsets OM Lin d dx x m) Xs).
+  by apply: F2_map; apply: F2_impl rX => l x rx; exact: offsets_repr.
+by split=> //; exact: wouter_repr.
+Qed.
+
+Lemma chunk_repr r base i ls (As : list 'cV[F]_r) : rcols r ls As ->
+  rcols r (chunk base i ls) (chunk base i As).
+Proof. by move=> H; rewrite /chunk; apply: F2_firstn; apply: F2_skipn. Qed.
+
+(* ---- the transform of a mixture, once the propagated sigma points are available ---- *)
+Lemma ut_core_repr Lin Lout d dc p pc dx (wl : utw OL) (wm : utw OM)
+      (csl : list (lmxF F * lmxF F)) (csm : list ('cV[F]_d * 'M[F]_dc))
+      lX (X : list 'cV[F]_d) lY (Y : list 'cV[F]_p) :
+  eg_corr Lout -> repr_utw wl wm -> List.Forall2 (@repr_comp d dc) csl csm ->
+  rcols d lX X -> rcols p lY Y ->
+  repr_utres (@ut_core OL Lin Lout d dc p pc dx wl csl lX lY)
+             (@ut_core OM Lin Lout d dc p pc dx wm csm X Y).
+Proof.
+move=> Heg rw rc rX rY; rewrite /ut_core /repr_utres /= (F2_length rc); split=> //.
+apply: F2_map; apply: F2_impl (F2_combine_seq _ rc) => -[il cl] [im cm] /= [-> [rm _]].
+by apply: ut_component_repr => //; exact: chunk_repr.
+Qed.
+
+(* the function being transformed: corresponding columns to corresponding columns *)
+Definition f_corr d p (fL : list (lmxF F) -> list (lmxF F)) (fM : list 'cV[F]_d -> list 'cV[F]_p) : Prop :=
+  forall lX X, rcols d lX X -> rcols p (fL lX) (fM X).
+
+Definition repr_opt (A B : Type) (R : A -> B -> Prop) (a : option A) (b : option B) : Prop :=
+  match a, b with
+  | Some x, Some y => R x y
+  | None, None => True
+  | _, _ => False
+  end.
+
+(* ... with a validity flag (measurement models): the flags agree *)
+Definition fopt_corr d p (fL : list (lmxF F) -> option (list (lmxF F)))
+           (fM : list 'cV[F]_d -> option (list 'cV[F]_p)) : Prop :=
+  forall lX X, rcols d lX X -> repr_opt (rcols p) (fL lX) (fM X).
+
+Lemma comp_sq_comp d dc (csl : list (lmxF F * lmxF F)) (csm : list ('cV[F]_d * 'M[F]_dc)) :
+  List.Forall2 (@repr_comp_sq d dc) csl csm -> List.Forall2 (@repr_comp d dc) csl csm.
+Proof. by apply: F2_impl => cl cm []. Qed.
+
+Section Entry.
+Variables (Lin Lout : layout) (d dc p pc dx : nat).
+Variables (wl : utw OL) (wm : utw OM).
+Variables (csl : list (lmxF F * lmxF F)) (csm : list ('cV[F]_d * 'M[F]_dc)).
+Hypothesis Heg : eg_corr Lout.
+Hypothesis rw : repr_utw wl wm.
+Hypothesis rc : List.Forall2 (@repr_comp_sq d dc) csl csm.
+
+Lemma sigma_points_w_repr :
+  rcols d (@sigma_points OL Lin d dc (w_c wl) csl) (@sigma_points OM Lin d dc (w_c wm) csm).
+Proof. by case: rw => _ _ ->; exact: sigma_points_repr. Qed.
+
+Theorem ut_generic_transport fL fM : @fopt_corr d p fL fM ->
+  repr_opt (@repr_utres p pc dx) (@ut_generic OL Lin Lout d dc p pc dx wl csl fL)
+                                 (@ut_generic OM Lin Lout d dc p pc dx wm csm fM).
+Proof.
+move=> Hf; rewrite /ut_generic.
+have rX := sigma_points_w_repr; move: (Hf _ _ rX).
+case: (fL _) => [lY|]; case: (fM _) => [Y|] //= rY.
+by apply: ut_core_repr => //; exact: comp_sq_comp.
+Qed.
+
+Theorem ut_state_transport fL fM : @f_corr d p fL fM ->
+  repr_utres (@ut_state OL Lin Lout d dc p pc dx wl csl fL)
+             (@ut_state OM Lin Lout d dc p pc dx wm csm fM).
+Proof.
+move=> Hf; rewrite /ut_state.
+have rX := sigma_points_w_repr.
+by apply: ut_core_repr => //; [exact: comp_sq_comp | exact: Hf].
+Qed.
+
+Lemma add_noise_cov_repr lN (N : 'M[F]_pc) (rl : ut_result OL p pc dx) (rm : ut_result OM p pc dx) :
+  repr pc pc lN N -> repr_utres rl rm ->
+  repr_utres (@add_noise_cov OL p pc dx lN rl) (@add_noise_cov OM p pc dx N rm).
+Proof.
+move=> rN [rcs rws]; split=> //=.
+apply: F2_map; apply: F2_impl rcs => ul um [r1 r2 r3]; split=> //=.
+exact: Radd.
+Qed.
+
+Theorem ut_additive_state_transport fL fM lQ (Q : 'M[F]_pc) : @f_corr d p fL fM -> repr pc pc lQ Q ->
+  repr_utres (@ut_additive_state OL Lin Lout d dc p pc dx wl csl fL lQ)
+             (@ut_additive_state OM Lin Lout d dc p pc dx wm csm fM Q).
+Proof. by move=> Hf rQ; apply: add_noise_cov_repr => //; exact: ut_state_transport. Qed.
+
+Theorem ut_meas_transport fL fM : @fopt_corr d p fL fM ->
+  repr_opt (@repr_utres p pc dx) (@ut_meas OL Lin Lout d dc p pc dx wl csl fL)
+                                 (@ut_meas OM Lin Lout d dc p pc dx wm csm fM).
+Proof. exact: ut_generic_transport. Qed.
+
+Theorem ut_additive_meas_transport fL fM lR (R : 'M[F]_pc) : @fopt_corr d p fL fM -> repr pc pc lR R ->
+  repr_opt (@repr_utres p pc dx) (@ut_additive_meas OL Lin Lout d dc p pc dx wl csl fL lR)
+                                 (@ut_additive_meas OM Lin Lout d dc p pc dx wm csm fM R).
+Proof.
+move=> Hf rR; rewrite /ut_additive_meas.
+move: (ut_generic_transport Hf).
+case: (@ut_generic OL _ _ _ _ _ _ _ _ _ _) => [rl|]; case: (@ut_generic OM _ _ _ _ _ _ _ _ _ _) => [rm|] //= rr.
+exact: add_noise_cov_repr.
+Qed.
+End Entry.
+
+(* ---- augmentation with noise statistics, harness functions ---- *)
+Lemma augment_comp_repr d dc q lQ (Q : 'M[F]_q) cl (cm : 'cV[F]_d * 'M[F]_dc) :
+  repr q q lQ Q -> repr_comp cl cm ->
+  @repr_comp (d + q) (dc + q) (@augment_comp OL d dc q lQ cl) (@augment_comp OM d dc q Q cm).
+Proof.
+move=> rQ [rm rP]; split; rewrite /augment_comp /=.
+- by apply: (r_vcat tr sq eg sqL egL) => //; exact: Rzero.
+- apply: (r_vcat tr sq eg sqL egL); apply: (r_hcat tr sq eg sqL egL) => //; exact: Rzero.
+Qed.
+
+Lemma affine_cols_corr d p lA (A : 'M[F]_(p,d)) lb (b : 'cV[F]_p) :
+  repr p d lA A -> repr p 1 lb b -> @f_corr d p (@affine_cols OL d p lA lb) (@affine_cols OM d p A b).
+Proof.
+move=> rA rb lX X rX; rewrite /affine_cols; apply: F2_map; apply: F2_impl rX => l x rx.
+by apply: Radd => //; exact: Rmul.
+Qed.
+
+Lemma quadratic_cols_corr d p lA (A : 'M[F]_(p,d)) lG (G : 'M[F]_(p,d)) lb (b : 'cV[F]_p) lg (g : 'cV[F]_p) :
+  repr p d lA A -> repr p d lG G -> repr p 1 lb b -> repr p 1 lg g ->
+  @f_corr d p (@quadratic_cols OL d p lA lG lb lg) (@quadratic_cols OM d p A G b g).
+Proof.
+move=> rA rG rb rg lX X rX; rewrite /quadratic_cols; apply: F2_map; apply: F2_impl rX => l x rx.
+apply: Radd; first by apply: Radd => //; exact: Rmul.
+apply: Rbuild => i j _ _.
+by rewrite (colgetE rg) !(colgetE (Rmul rG rx)).
+Qed.
+
+End UT.
+
+Print Assumptions ut_additive_meas_transport.
+Print Assumptions ut_additive_state_transport.
